@@ -118,9 +118,11 @@ func specWRBytes(r *WireReader, s0, s1 int, p, q int, b []byte) bool {
 //@   ensures specWRPos(r) == old(specWRPos(r)) && old(r.seg) <= r.seg
 //@   ensures result ==> r.pos < len(r.wire[r.seg])
 //@   ensures result == (old(specWRPos(r)) < specWRLen(r))
+//@   ensures forallIn(old(r.seg)+1, r.seg+1, func(t int) bool { return r.accSz[t] == r.accSz[r.seg] })
 //@   ensures forallIn(old(r.seg), r.seg, func(s int) bool { return r.accSz[s+1] == r.accSz[r.seg] })
 //@   loop 1 invariant wfWR(r) && specWRPos(r) == old(specWRPos(r)) && old(r.seg) <= r.seg
-//@   loop 1 invariant forallIn(old(r.seg), r.seg, func(s int) bool { return r.accSz[s+1] == r.accSz[r.seg] })
+//@   loop 1 invariant r.seg > old(r.seg) ==> r.pos == 0 && r.accSz[old(r.seg)+1] == r.accSz[r.seg]
+//@   loop 1 invariant forallIn(old(r.seg)+1, r.seg+1, func(t int) bool { return r.accSz[t] == r.accSz[r.seg] })
 //@   loop 1 decreases len(r.wire) - r.seg
 
 //@ func (*WireReader).ReadByte
